@@ -390,3 +390,13 @@ package oned
 //@   loop 0: invariant bestMatch >= 0 ==> vPat(counters, P, bestMatch, MI) == bestVariance && bestVariance < LIM && (forall k int :: 0 <= k && k < bestMatch ==> vPat(counters, P, k, MI) > bestVariance)
 //@   loop 0: invariant bestMatch < 0 ==> bestVariance == LIM
 //@   loop 0: decreases 107 - d
+
+// RecordPatternInReverse (C20, C06): panic-free for every start inside the row; fails only with NotFoundException
+//@ func RecordPatternInReverse(row *gozxing.BitArray, start int, counters []int) (e error)
+//@   property C20 C06
+//@   requires row != nil && gozxing.wfBA(row) && 0 <= start && start < row.size && len(counters) >= 1 && row.size <= 10000000
+//@   ensures e != nil ==> typeis(e, "gozxing.notFoundException")
+//@   ensures e == nil ==> (forall k int :: 0 <= k && k < len(counters) ==> counters[k] >= 1 && counters[k] <= row.size)
+//@   modifies counters[*]
+//@   loop 0: invariant 0 <= start && start <= old(start) && -1 <= numTransitionsLeft && numTransitionsLeft <= len(counters)
+//@   loop 0: decreases start
